@@ -71,6 +71,14 @@ func catalogue() []fault {
 				for at := 1; at <= 6; at += 2 {
 					out = append(out, fault{"send-late", at, c, burst, after})
 				}
+				// a Send that fails with an error generated on the client side (returned by
+				// Send itself, not io.EOF) while a waiter is inside AwaitConverged
+				if burst == 3 {
+					rc := map[codes.Code]codes.Code{codes.Unavailable: codes.ResourceExhausted, codes.Internal: codes.Internal, codes.Canceled: codes.Canceled}[c]
+					for at := 3; at <= 6; at++ {
+						out = append(out, fault{"send-direct", at, rc, burst, after})
+					}
+				}
 				out = append(out, fault{"recv-idle", 0, c, burst, after})
 			}
 		}
@@ -193,8 +201,11 @@ func runCase(col sink, st *stepper, caseID string, f fault, rep int) {
 	ferr := status.Error(f.code, "injected stream failure")
 	fake.NewStream = func(s *drv.FakeStream) {
 		switch f.side {
-		case "send", "send-late":
+		case "send", "send-late", "send-direct":
 			s.FailSendAt, s.FailErr = f.at, ferr
+			if f.side == "send-direct" {
+				s.FailDirect, s.SendFailDelay = true, 3*time.Millisecond
+			}
 			if f.side == "send-late" {
 				s.StatusDelay = 150 * time.Millisecond
 			}
@@ -258,6 +269,34 @@ func runCase(col sink, st *stepper, caseID string, f fault, rep int) {
 	// the channel the application obtained once, before anything happened: it is this very
 	// channel that has to be signalled by every later failure of this client
 	doneOnce := c.Done()
+	if f.side == "send-direct" {
+		// an application goroutine is waiting for convergence (again and again, with a short
+		// deadline) while the Send that is going to fail is in progress
+		stopW := make(chan struct{})
+		wExited := make(chan struct{})
+		go func() {
+			defer close(wExited)
+			for {
+				select {
+				case <-stopW:
+					return
+				default:
+				}
+				wc, cancelW := context.WithTimeout(ctx, time.Millisecond)
+				c.AwaitConverged(wc)
+				cancelW()
+			}
+		}()
+		defer func() {
+			close(stopW)
+			select {
+			case <-wExited:
+			case <-time.After(25 * time.Second):
+				// the waiter never came back: decided by the census / block classifier
+			}
+		}()
+		col.Count("send_failures_with_a_waiter_inside_await_converged", 1)
+	}
 	id := uint64(1)
 	pre := 4
 	if f.side == "recv-unused" {
